@@ -1771,10 +1771,13 @@ Section S2.
        In id (own_ids a) /\ elookup q ex = Some e /\ In q (map fst T)) ->
     exists st' X', indir_loop add_from add_from_r false ind st = Some st' /\ WS X' st' T /\
       mpres (g_memo st) (g_memo st') /\
-      (forall t, In t X' <-> In t X \/ exists id e, In (id, e) ind /\ ind_edge (g_memo st') id e t).
+      (forall t, In t X' <-> In t X \/ exists id e, In (id, e) ind /\ ind_edge (g_memo st') id e t) /\
+      (forall id e, In (id, e) ind -> exists sn rn, memo_find (0, id) (g_memo st') = Some sn /\
+                                                 memo_find (key_of e) (g_memo st') = Some rn).
   Proof.
     induction ind as [|[id ref] ind IH]; intros X st T W Hind; cbn [indir_loop].
     - exists st, X. split; [reflexivity|]. split; [exact W|]. split; [apply mpres_refl|].
+      split; [|intros id e []].
       intros t. split; [auto|]. intros [H | [id [e [[] _]]]]. exact H.
     - destruct (Hind id ref (or_introl eq_refl)) as [a [q [Ha [HaT [Hid [Hq HqT]]]]]].
       (* 488 *)
@@ -1799,11 +1802,13 @@ Section S2.
       rewrite Hrn.
       (* 490 *)
       destruct (IH ((sn, p_from, lnode Lq) :: X) (upd_tr (add_from_r sn (lnode Lq)) st1) T)
-        as [st' [X' [El [W' [Hp' HX']]]]].
+        as [st' [X' [El [W' [Hp' [HX' Hall']]]]]].
       { now apply WS_add_edge. }
       { intros id' e' Hin. apply Hind. cbn. auto. }
       exists st', X'. split; [exact El|]. split; [exact W'|].
       split; [eapply mpres_trans; [exact Hp1 | exact Hp']|].
+      split; [|intros id' e' [[= <- <-] | Hin];
+               [exists sn, (lnode Lq); split; [apply Hp', Hsn | apply Hp', Hrn] | now apply Hall']].
       intros t. rewrite HX'. cbn [In]. split.
       + intros [[<- | H] | [id' [e' [Hin He']]]].
         * right. exists id, ref. split; [auto|]. exists sn, (lnode Lq).
@@ -1867,3 +1872,223 @@ Section S2.
       + destruct (Hl r' n' Hin) as [e' [A B]]. exists e'. cbn. auto.
   Qed.
 End S2.
+
+(* ======================================================================== *)
+(* The theorem *)
+
+Lemma assoc_n_In {A} r (l : list (nat * A)) v : assoc_n r l = Some v -> In (r, v) l.
+Proof.
+  induction l as [|[r' v'] l IH]; cbn [assoc_n]; [discriminate|].
+  destruct (Nat.eqb r r') eqn:E.
+  - intros [= ->]. apply Nat.eqb_eq in E. subst. cbn. auto.
+  - intros H. cbn. auto.
+Qed.
+
+Lemma In_assoc_n {A} r (l : list (nat * A)) v : NoDup (map fst l) -> In (r, v) l -> assoc_n r l = Some v.
+Proof.
+  induction l as [|[r' v'] l IH]; cbn [assoc_n map fst]; [intros _ []|].
+  intros Hnd [[= -> ->] | H].
+  - now rewrite Nat.eqb_refl.
+  - apply NoDup_cons_iff in Hnd. destruct Hnd as [Hr Hnd].
+    destruct (Nat.eqb r r') eqn:E; [|auto].
+    apply Nat.eqb_eq in E. subst. exfalso. apply Hr. apply in_map_iff. exists (r', v). auto.
+Qed.
+
+Lemma NoDup_snd_of_inj {A B} (l : list (A * B)) :
+  NoDup (map fst l) -> (forall a a' b, In (a, b) l -> In (a', b) l -> a = a') -> NoDup (map snd l).
+Proof.
+  induction l as [|[a b] l IH]; cbn [map fst snd]; intros Hnd Hinj; [constructor|].
+  apply NoDup_cons_iff in Hnd. destruct Hnd as [Ha Hnd]. constructor.
+  - intros Hb. apply in_map_iff in Hb. destruct Hb as [[a' b'] [E Hin]]. cbn in E. subst b'.
+    assert (a = a') by (apply (Hinj a a' b); cbn; auto). subst a'.
+    apply Ha. apply in_map_iff. exists (a, b). auto.
+  - apply IH; [exact Hnd|]. intros a1 a2 b0 H1 H2. apply (Hinj a1 a2 b0); cbn; auto.
+Qed.
+
+Lemma Forall2_mono_in {A B} (R R' : A -> B -> Prop) l1 l2 :
+  (forall a b, In a l1 -> R a b -> R' a b) -> Forall2 R l1 l2 -> Forall2 R' l1 l2.
+Proof.
+  intros H F. induction F; constructor.
+  - apply H; cbn; auto.
+  - apply IHF. intros a b Ha. apply H. cbn. auto.
+Qed.
+
+Theorem add_workflow_plugged add_from add_from_r :
+  add_from_ok add_from -> add_from_ok add_from_r ->
+  forall pt wf, wf_okb wf = true ->
+  exists res T sg tg,
+    add_workflow add_from add_from_r false pt wf = Some res /\
+    target wf = Some tg /\
+    (forall r, In r (map fst (r_map res)) <-> In r (w_srcs wf) \/ In r (outs wf)) /\
+    NoDup (map fst (r_map res)) /\ NoDup (map snd (r_map res)) /\
+    (forall r, In r (map fst T) <-> In r (w_srcs wf) \/ In r (outs wf)) /\
+    NoDup (map fst T) /\
+    (forall r L, In (r, L) T -> rho res r = Some (lnode L)) /\
+    (forall s L, In (s, L) T -> In s (w_srcs wf) -> exists n, L = LLeaf n) /\
+    (forall a L, In a (w_apps wf) -> In (a_out a, L) T ->
+       tshape (feed wf pt res sg a) sg (a_tx a) L) /\
+    NoDup (namesT T) /\
+    (forall i n, sg i = Some n -> ~ In n (namesT T)) /\
+    (forall s, In s (w_srcs wf) -> sg s = rho res s) /\
+    (forall t, vis t ->
+       (In t (r_tr res) <-> In t (flowT T) \/
+          (pt = false /\ exists a k q sn rn, In a (w_apps wf) /\ nth_error (a_ins a) k = Some q /\
+             ~ In q (w_srcs wf) /\ sg (nth k (a_ind a) 0) = Some sn /\ rho res q = Some rn /\
+             t = (sn, p_from, rn)))) /\
+    Forall2 (fun s n => rho res s = Some n) (w_srcs wf) (r_inputs res) /\
+    rho res tg = Some (r_output res).
+Proof.
+  intros Hok Hokr pt wf Hwf.
+  destruct (wf_parts wf Hwf) as [_ [_ [_ [tg Htg]]]].
+  destruct (target_spec wf tg Htg) as [Htgo _].
+  set (srcs := w_srcs wf). set (apps := w_apps wf).
+  set (E0 := mkE (map (fun s => (s, ESrc s)) srcs) []).
+  assert (Hdom0 : map fst (e_tab E0) = srcs).
+  { cbn. rewrite map_map. cbn. apply map_id. }
+  assert (Hex0 : ExOK wf pt (e_tab E0)).
+  { split; [rewrite Hdom0; apply (nd_srcs wf Hwf)|]. split; [|split].
+    - intros s Hs. apply In_elookup; [rewrite Hdom0; apply (nd_srcs wf Hwf)|].
+      cbn. apply in_map_iff. exists s. auto.
+    - intros r Hr. rewrite Hdom0 in Hr. auto.
+    - intros r e He Hns. exfalso. apply Hns. apply elookup_dom in He. now rewrite Hdom0 in He. }
+  assert (Hind0 : IndOK wf pt E0).
+  { intros id e. cbn [e_ind E0]. split; [intros []|].
+    intros [_ [a [k [q [Hd [Ha _]]]]]]. rewrite Hdom0 in Hd. exfalso.
+    apply (src_not_out wf Hwf _ Hd). unfold outs. now apply in_map. }
+  assert (Hrk : rank wf tg < wf_fuel wf).
+  { destruct (out_app wf Hwf tg Htgo) as [a [Ha [Eo _]]].
+    destruct (app_parts wf Hwf a Ha) as [_ [Hle _]]. rewrite Eo in Hle. unfold wf_fuel. lia. }
+  destruct (w2e_ok wf pt Hwf (wf_fuel wf) tg E0 Hex0 Hind0 (or_intror Htgo) Hrk)
+    as [e1 [E1 [Ew [Hex [Hind [_ [Hltg _]]]]]]].
+  set (ex := e_tab E1) in *.
+  assert (W0 : WS wf pt ex [] g_empty []).
+  { constructor; cbn.
+    - split; [intros t0 []|]. split; [intros k n []|]. intros k k' n H. discriminate H.
+    - intros r L [].
+    - intros t0 _. tauto.
+    - constructor.
+    - intros x [].
+    - intros i n [].
+    - intros r L [].
+    - intros r L [].
+    - intros r L a [].
+    - constructor.
+    - intros k n [].
+    - intros i n []. }
+  destruct (w2t_ok add_from Hok wf pt Hwf ex Hex (wf_fuel wf) [] tg g_empty [] W0
+              (elookup_dom _ _ _ Hltg) Hrk)
+    as [res0 [st1 [T1 [Et [W1 [[Ltg [HLtg Hres0]] _]]]]]].
+  assert (Hall1 : forall a, In a apps -> In (a_out a) (map fst T1)).
+  { apply (all_outs_in_T wf pt Hwf ex [] st1 T1 tg W1 Htg).
+    apply in_map_iff. exists (tg, Ltg). auto. }
+  assert (Hlook : forall X st T r, WS wf pt ex X st T -> In r (map fst T) ->
+            exists e n, elookup r ex = Some e /\ memo_find (key_of e) (g_memo st) = Some n).
+  { intros X st T r W HT. apply in_map_iff in HT. destruct HT as [[r0 L] [E HT]]. cbn in E. subst r0.
+    destruct (s_memo _ _ _ _ _ _ W r L HT) as [e [He Hm]]. eauto. }
+  destruct (indir_ok add_from add_from_r Hokr wf pt ex (e_ind E1) [] st1 T1 W1)
+    as [st2 [X2 [Ei [W2 [Hp2 [HX2 Hall2]]]]]].
+  { intros id e Hin. apply Hind in Hin. destruct Hin as [_ [a [k [q [Hd [Ha [Hk [Hq [Hi He]]]]]]]]].
+    exists a, q. split; [exact Ha|]. split; [apply Hall1, Ha|]. split.
+    - unfold own_ids. apply in_app_iff. right. eapply nth_error_In; eauto.
+    - split; [exact He|].
+      destruct (app_parts wf Hwf a Ha) as [Hins _]. destruct (Hins q (nth_error_In _ _ Hk)) as [[F | Ho] _];
+        [contradiction|].
+      destruct (out_app wf Hwf q Ho) as [aq [Haq [Eoq _]]]. rewrite <- Eoq. apply Hall1, Haq. }
+  destruct (inputs_ok add_from Hok wf pt Hwf ex Hex srcs X2 st2 T1 W2 (fun s H => H))
+    as [ins [st3 [T3 [El [W3 [Hi3 [Hp3 [Hs3 Hf3]]]]]]]].
+  destruct Hex as [X0 [X1 [X2' X3]]].
+  assert (HdomT3 : forall r, In r (map fst T3) <-> In r srcs \/ In r (outs wf)).
+  { intros r. split.
+    - intros HT. destruct (Hlook _ _ _ r W3 HT) as [e [n [He _]]]. apply X2'. eapply elookup_dom; eauto.
+    - intros [Hs | Ho]; [now apply Hs3|].
+      destruct (out_app wf Hwf r Ho) as [a [Ha [Eo _]]]. rewrite <- Eo.
+      specialize (Hall1 a Ha). apply in_map_iff in Hall1. destruct Hall1 as [[r0 L] [E HT]].
+      apply in_map_iff. exists (r0, L). split; [exact E | apply Hi3, HT]. }
+  assert (Hdomex : forall r, In r (map fst ex) <-> In r srcs \/ In r (outs wf)).
+  { intros r. split; [apply X2'|]. intros H. apply HdomT3 in H.
+    destruct (Hlook _ _ _ r W3 H) as [e [n [He _]]]. eapply elookup_dom; eauto. }
+  destruct (result_map_ok (g_memo st3) ex) as [m [Em [Hmf Hm]]].
+  { intros r e Hin. assert (HT : In r (map fst T3)).
+    { apply HdomT3, Hdomex. apply in_map_iff. exists (r, e). auto. }
+    destruct (Hlook _ _ _ r W3 HT) as [e' [n [He' Hn]]].
+    rewrite (In_elookup r e ex X0 Hin) in He'. injection He' as <-. eauto. }
+  unfold add_workflow. fold srcs. fold E0. rewrite Htg, Ew. fold ex. rewrite Et, Ei. fold srcs.
+  rewrite El, Em.
+  set (res := mkRes (g_tr st3) ins res0 m).
+  assert (Hndm : NoDup (map fst m)) by (rewrite Hmf; exact X0).
+  assert (Hrho : forall r e n, elookup r ex = Some e -> memo_find (key_of e) (g_memo st3) = Some n ->
+            rho res r = Some n).
+  { intros r e n He Hn. unfold rho. cbn [r_map res]. apply In_assoc_n; [exact Hndm|].
+    assert (Hr : In r (map fst m)) by (rewrite Hmf; eapply elookup_dom; eauto).
+    apply in_map_iff in Hr. destruct Hr as [[r0 n0] [E Hin]]. cbn in E. subst r0.
+    destruct (Hm r n0 Hin) as [e' [Hin' Hn']].
+    rewrite (In_elookup r e' ex X0 Hin') in He. injection He as <-. congruence. }
+  assert (HrhoT : forall r L, In (r, L) T3 -> rho res r = Some (lnode L)).
+  { intros r L HT. destruct (s_memo _ _ _ _ _ _ W3 r L HT) as [e [He Hn]]. eapply Hrho; eauto. }
+  exists res, T3, (anm (g_memo st3)), tg.
+  split; [reflexivity|]. split; [reflexivity|].
+  split; [intros r; cbn [r_map res]; rewrite Hmf; apply Hdomex|].
+  split; [exact Hndm|]. split.
+  { (* different resources, different nodes *)
+    cbn [r_map res]. apply NoDup_snd_of_inj; [exact Hndm|].
+    intros r r' n H1 H2. destruct (Hm r n H1) as [e [Hin Hn]]. destruct (Hm r' n H2) as [e' [Hin' Hn']].
+    apply (key_inj wf pt Hwf ex (conj X0 (conj X1 (conj X2' X3))) r r' e e');
+      [apply In_elookup; auto | apply In_elookup; auto |].
+    destruct (s_inv _ _ _ _ _ _ W3) as [_ [_ I3]]. apply (I3 _ _ n Hn Hn'). }
+  split; [exact HdomT3|]. split; [apply (s_ndT _ _ _ _ _ _ W3)|]. split; [exact HrhoT|].
+  split; [apply (s_leaf _ _ _ _ _ _ W3)|]. split.
+  { (* the tree of a tool application *)
+    intros a L Ha HT.
+    assert (Hns : ~ In (a_out a) srcs).
+    { intros F. apply (src_not_out wf Hwf _ F). unfold outs. now apply in_map. }
+    destruct (s_shape _ _ _ _ _ _ W3 (a_out a) L HT Hns) as [a' [es [Hf [Hfe Hts]]]].
+    rewrite (find_app_unique wf a (nd_outs wf Hwf) Ha) in Hf. injection Hf as <-.
+    eapply tshape_mono; [| |exact Hts]; [|auto].
+    intros k n Hl. unfold lfm in Hl. destruct (nth_error es k) as [e0|] eqn:Ek; [|discriminate].
+    assert (Hlen : length es = length (a_ins a)) by (eapply feeds_length; eauto).
+    destruct (nth_error (a_ins a) k) as [q|] eqn:Eq.
+    2:{ apply nth_error_None in Eq. assert (k < length es) by (apply nth_error_Some; congruence). lia. }
+    destruct (feeds_nth wf pt ex _ _ _ k q Hfe Eq) as [eq [Heq Hn]].
+    rewrite Ek in Hn. injection Hn as ->. unfold feed. rewrite Eq.
+    destruct (pt || memb q (w_srcs wf)).
+    - eapply Hrho; eauto.
+    - exact Hl. }
+  split; [apply (s_nd _ _ _ _ _ _ W3)|]. split.
+  { intros i n Hi. apply (s_src _ _ _ _ _ _ W3 i n). now apply memo_find_In. }
+  split.
+  { intros s Hs. specialize (Hs3 s Hs). apply in_map_iff in Hs3. destruct Hs3 as [[s0 L] [E HT]].
+    cbn in E. subst s0. rewrite (HrhoT s L HT).
+    destruct (s_memo _ _ _ _ _ _ W3 s L HT) as [e [He Hn]]. rewrite (X1 s Hs) in He. injection He as <-.
+    exact Hn. }
+  split.
+  { (* the graph *)
+    intros t Hv. cbn [r_tr res]. rewrite (s_veq _ _ _ _ _ _ W3 t Hv), in_app_iff, HX2. cbn [In].
+    split.
+    - intros [H | [[] | [id [e [Hin [sn [rn [Hsn [Hrn ->]]]]]]]]]; [auto|]. right.
+      apply Hind in Hin. destruct Hin as [Hp [a [k [q [Hd [Ha [Hk [Hq [Hi He]]]]]]]]].
+      split; [exact Hp|]. exists a, k, q, sn, rn. split; [exact Ha|]. split; [exact Hk|].
+      split; [exact Hq|]. split.
+      + rewrite (nth_error_nth _ _ 0 Hi). unfold anm. apply Hp3, Hsn.
+      + split; [|reflexivity]. eapply Hrho; [exact He | apply Hp3, Hrn].
+    - intros [H | [Hp [a [k [q [sn [rn [Ha [Hk [Hq [Hsn [Hrn ->]]]]]]]]]]]]; [auto|]. right. right.
+      destruct (app_parts wf Hwf a Ha) as [Hins [_ [_ [_ Hlen]]]].
+      destruct (Hins q (nth_error_In _ _ Hk)) as [[F | Ho] _]; [contradiction|].
+      assert (HqT : In q (map fst T3)) by (apply HdomT3; auto).
+      destruct (Hlook _ _ _ q W3 HqT) as [e [n [He Hn]]].
+      assert (Hkl : k < length (a_ind a)).
+      { rewrite Hlen. apply nth_error_Some. congruence. }
+      assert (Hin : In (nth k (a_ind a) 0, e) (e_ind E1)).
+      { apply Hind. split; [exact Hp|]. exists a, k, q. split.
+        - apply Hdomex. right. unfold outs. now apply in_map.
+        - split; [exact Ha|]. split; [exact Hk|]. split; [exact Hq|]. split; [|exact He].
+          now apply nth_error_nth'. }
+      exists (nth k (a_ind a) 0), e. split; [exact Hin|].
+      destruct (Hall2 _ _ Hin) as [sn' [rn' [A B]]].
+      exists sn', rn'. split; [exact A|]. split; [exact B|].
+      unfold anm in Hsn. rewrite (Hp3 _ _ A) in Hsn. injection Hsn as <-.
+      rewrite (Hrho q e rn' He (Hp3 _ _ B)) in Hrn. now injection Hrn as <-. }
+  split.
+  { cbn [r_inputs res]. eapply Forall2_mono_in; [|exact Hf3]. intros s n Hs Hn. cbn beta in Hn.
+    apply (Hrho s (ESrc s) n (X1 s Hs)). exact Hn. }
+  cbn [r_output res]. rewrite <- Hres0. apply HrhoT. apply Hi3, HLtg.
+Qed.
